@@ -605,7 +605,7 @@ pub trait ReadVolatile: Sized {
             invariant
                 *buf == *old(buf), buf.wf(),
                 0 <= self.pos() - old(self).pos() <= buf.size,
-                partial_buf.is_sub(buf, self.pos() - old(self).pos(), buf.size - (self.pos() - old(self).pos())),
+                partial_buf.is_sub(buf, self.pos() - old(self).pos(), buf.size - (self.pos() - old(self).pos())), // [C14,C13,C01,C05,C16,C03]
                 forall|st: Self, s: VolatileSlice<B>| #![trigger st.accepts(s)] s.is_sub(old(buf), st.pos() - old(self).pos(), old(buf).size - (st.pos() - old(self).pos())) ==> st.accepts(s),
             decreases partial_buf.size,
 //@end
@@ -614,7 +614,7 @@ pub trait ReadVolatile: Sized {
                 invariant
                     *buf == *old(buf), buf.wf(), partial_buf.size > 0, partial_buf.size == size0, self.pos() == pos0,
                     0 <= self.pos() - old(self).pos() <= buf.size,
-                    partial_buf.is_sub(buf, pos0 - old(self).pos(), buf.size - (pos0 - old(self).pos())),
+                    partial_buf.is_sub(buf, pos0 - old(self).pos(), buf.size - (pos0 - old(self).pos())), // [C14,C13,C01,C05,C16,C03]
                 ensures
                     !is_eintr(__retry_eintr_r), // [C14]
                     __retry_eintr_r matches Ok(n) ==> self.pos() == pos0 + n,
@@ -661,7 +661,7 @@ pub trait WriteVolatile: Sized {
             invariant
                 buf.wf(),
                 0 <= self.pos() - old(self).pos() <= buf.size,
-                partial_buf.is_sub(buf, self.pos() - old(self).pos(), buf.size - (self.pos() - old(self).pos())),
+                partial_buf.is_sub(buf, self.pos() - old(self).pos(), buf.size - (self.pos() - old(self).pos())), // [C14,C13,C01,C05,C16,C03]
                 forall|st: Self, s: VolatileSlice<B>| #![trigger st.accepts(s)] s.is_sub(buf, st.pos() - old(self).pos(), buf.size - (st.pos() - old(self).pos())) ==> st.accepts(s),
             decreases partial_buf.size,
 //@end
@@ -670,7 +670,7 @@ pub trait WriteVolatile: Sized {
                 invariant
                     buf.wf(), partial_buf.size > 0,
                     0 <= self.pos() - old(self).pos() <= buf.size,
-                    partial_buf.is_sub(buf, self.pos() - old(self).pos(), buf.size - (self.pos() - old(self).pos())),
+                    partial_buf.is_sub(buf, self.pos() - old(self).pos(), buf.size - (self.pos() - old(self).pos())), // [C14,C13,C01,C05,C16,C03] // [C14,C13,C01,C05,C16,C03]
                 ensures
                     !is_eintr(__retry_eintr_r), // [C14]
                     __retry_eintr_r matches Ok(n) ==> partial_buf.is_sub(buf, self.pos() - n - old(self).pos(), buf.size - (self.pos() - n - old(self).pos())),
@@ -814,7 +814,7 @@ impl<B: BitmapSlice> VolatileSlice<'_, B> {
 //@end
 //@loop 1
             // R15: the expansion of retry_eintr!( .. ): every repetition is the identical call, made only after EINTR
-            invariant src.pos() == old(src).pos(), slice.is_sub(self, addr as int, (if count <= self.size - addr { count as int } else { self.size - addr })),
+            invariant src.pos() == old(src).pos(), slice.is_sub(self, addr as int, (if count <= self.size - addr { count as int } else { self.size - addr })), // [C01,C04,C03,C05,C16,C14]
             ensures !is_eintr(__retry_eintr_r), // [C14]
                 __retry_eintr_r matches Ok(n) ==> src.pos() == old(src).pos() + n,
 //@end
